@@ -5,8 +5,11 @@
    that core's RPCReadCost / RPCWriteCost perform on the request (with their uint64
    wrap-around) and the panics of core's proof builders.
 
-   Corresponds to the code WITH fixes/C14-rhp2-bounds.patch and fixes/C14-rhp3-payments.patch
-   applied.  The unpatched logic is in Legacy.v.  No proofs here.
+   Corresponds to the code WITH fixes/C14-rhp2-form-renter-key.patch,
+   C14-rhp2-sector-roots-range.patch, C14-rhp2-read-section-wrap.patch,
+   C14-rhp2-update-proof-panic.patch and C14-rhp3-fund-account-underflow.patch applied, and
+   with commit b6b66ef (renewalBaseCosts, overflow -> error) for the renewal base costs.
+   The unpatched logic is in Legacy.v.  No proofs here.
 
    Everything a handler decides from signatures, payout validation (rhp/contracts.go, C07)
    or the price arithmetic on host-chosen prices enters as an oracle bit of the request. *)
